@@ -27,7 +27,8 @@ ALLOWED_NATIONAL = {
 def shards(tier):
     names = sorted(n for n in C.number_modules() if n not in C.GENERIC_ALGOS)
     n = 32 if tier == 'quick' else 64
-    return [{'name': 'm%02d' % i, 'modules': part} for i, part in enumerate(C.chunk(names, n)) if part]
+    return [{'name': 'm%02d' % i, 'modules': part} for i, part in enumerate(C.chunk(names, n)) if part] + \
+        [{'name': 'doctest-suite', 'kind': 'doctests', 'modules': []}]
 
 
 def block_of(ch):
@@ -84,6 +85,8 @@ def check(name, mod, x, cls, viols):
 
 
 def work(shard, tier):
+    if shard.get('kind') == 'doctests':
+        return doctest_suite_work()
     mods = C.number_modules()
     viols = {}
     cells = set()
@@ -164,3 +167,15 @@ def replay(w):
     viols = {}
     check(w['module'], C.number_modules()[w['module']], w['arg'], w.get('cls', ''), viols)
     return list(viols.values())
+
+
+def doctest_suite_work():
+    """The repository's own doctest suite with this property's boundary contract switched on."""
+    rec, err = C.run_doctests_with_contracts('C15')
+    if err:
+        return {'evaluations': 0, 'nontrivial': 0, 'violations': [], 'inconclusive': ['contracts-on doctest run failed: %s' % err]}
+    return {'evaluations': rec['calls'], 'nontrivial': 0, 'violations': rec['violations'],
+            'samples': [{'workload': 'repository doctest suite under contracts', 'validate_calls': rec['calls'], 'pytest': rec['pytest_tail']}],
+            'counters': {'doctest_suite_validate_calls': rec['calls'], 'doctest_suite_accepted_calls': rec['accepted'],
+                         'doctest_suite_modules': len(rec['modules'])},
+            'sets': {}}
